@@ -477,6 +477,46 @@ pub fn run(ctx: &Ctx, rep: &mut Report) {
             }
         }
     }
+    // (iii-d) small values behind long runs of leading zeros (every run length 0..=48, then the
+    // lengths around 64, 128, 255/256, 1000, 4096, 65 536 and a million digits) in each of the
+    // four numeric fields: the value is what counts, not the number of digits it is written with
+    {
+        let mut runs: Vec<usize> = (0..=48).collect();
+        runs.extend_from_slice(&[63, 64, 65, 100, 127, 128, 129, 254, 255, 256, 257, 999, 1000, 4095, 4096, 65_535, 65_536]);
+        if !mon::is_noalloc() || ctx.thorough() {
+            runs.push(1_000_000);
+        }
+        let mut item = 0u64;
+        for zeros in runs {
+            for fld in 0..4usize {
+                if !ctx.mine(item) {
+                    item += 1;
+                    continue;
+                }
+                item += 1;
+                let values: &[u32] = match fld {
+                    0 => &[1, 0, 2, 9, 10, 99, 100, 255, 256, 300],
+                    1 => &[1, 0, 2, 9, 10, 255, 256],
+                    2 => &[0, 1, 9, 10, 99, 100, 255, 256, 1000],
+                    _ => &[0, 1, 5, 6, 9, 10],
+                };
+                for v in values {
+                    let s = format!("{}{}", "0".repeat(zeros), v);
+                    let mut b = Build::simple(1, 1, None, b"A", b"15RTgt0PAso;90TKcjM8h6g208CQ", 0);
+                    match fld {
+                        0 => b.n = s,
+                        1 => {
+                            b.n = "255".into();
+                            b.k = s;
+                        }
+                        2 => b.id = s,
+                        _ => b.fill = s,
+                    }
+                    judge(rep, &b.line(), if zeros > 12 { "long-zero-run" } else { "zero-run" }, ["count", "number", "id", "fill"][fld]);
+                }
+            }
+        }
+    }
     // (iv) random bytes
     for _ in 0..ctx.budget(100_000, 1_000_000) {
         let n = r.usize(0, 120);
